@@ -79,6 +79,9 @@ func h17a(N, L int) {
 		if vBoolAt("noPayload", i, 3) {
 			it.Payload = &conformancev1.MessageContents{}
 			plen[i] = 0
+			if vBoolAt("nilPayload", i, 3) {
+				it.Payload = nil // an item that only gives flags (and perhaps a length): what a decoded suite yields
+			}
 		}
 		if hasLen[i] {
 			it.Length = &explicit[i]
